@@ -93,5 +93,8 @@ pub fn run(id: &'static str, main_fn: MainFn, replay_fn: ReplayFn) {
     for (k, v) in &rep.classes {
         println!("  class {k}: {v}");
     }
+    if std::env::var("VERIF_SPIN_STATS").is_ok() {
+        println!("  spin-max {}", crate::engine::sim::spin_max());
+    }
     std::process::exit(rep.exit_code());
 }
